@@ -107,7 +107,25 @@ def _values(fields: list[tuple[str, str]], variant: int, counter: list[int]) -> 
         counter[0] += 1
         return VFalsy(v=counter[0])
 
+    def iterable():
+        # a node that is iterable over its own items (neither falsy nor sized)
+        from models.zoo import VIter
+
+        counter[0] += 1
+        return VIter(items=(leaf(),), v=counter[0])
+
     kw: dict[str, Any] = {}
+    if variant == 3:
+        for name, k in fields:
+            if k == "cs" or k == "co":
+                kw[name] = iterable()
+            elif k == "cu":
+                kw[name] = leaf()
+            elif k == "ct":
+                kw[name] = (iterable(), leaf())
+            elif k == "cf":
+                kw[name] = (leaf(), iterable())
+        return kw
     for name, k in fields:
         if k == "cs":
             kw[name] = falsy() if variant == 2 else leaf()
@@ -141,7 +159,7 @@ def make_harness(hs: list[tuple], fresh: bool):
             first = depth - 1
         target = e.choice(depth, "queried_level")
         part = e.pick(["children", "properties"], "part")
-        variant = e.choice(3, "instance_variant") if part == "children" else 1
+        variant = e.choice(4, "instance_variant") if part == "children" else 1
         counter = [0]
         scenario: dict[str, Any] = {
             "levels": [list(map(list, lvl)) for lvl in h], "postponed": postponed, "first_used_level": first + 1,
@@ -333,7 +351,7 @@ def mi_harness(e):
     target = e.pick(["MFunc", "MEmpty", "MOverride", "MNamed", "MBodied", "MQuoted", "MAnnBase"], "queried_class")
     fields = G.MI_FIELDS[target]
     part = e.pick(["children", "properties"], "part")
-    variant = e.choice(3, "instance_variant") if part == "children" else 1
+    variant = e.choice(4, "instance_variant") if part == "children" else 1
     kw = _values(fields, variant, counter)
     cls = C[target]
     node = cls(**kw)
